@@ -1104,7 +1104,7 @@ Section DiskInv.
                    = (Ok tt, w4) /\ Grow w3 w4 /\ parent_ok (wfs w4) q = true).
     { destruct (mpre m) eqn:Pre.
       - exists w3. split; [reflexivity|]. split; [apply grow_refl, S3|].
-        specialize (D3 eq_refl h (H_len c)). fold q in D3. unfold parent_ok, has_dir in *.
+        specialize (D3 eq_refl h (H_len c) (H_byte c)). fold q in D3. unfold parent_ok, has_dir in *.
         now rewrite Dirs3.
       - destruct (mkdir_cas2_ok (nth 0 (hexpath h) []) (nth 1 (hexpath h) []) w3
                     (st_fault _ _ _ _ S3)) as (w4 & E4 & G4 & D4).
